@@ -85,6 +85,46 @@ S = {
  "C19-r2-2": ("C19", "parser", "character column of 0-leading numbers taken from the byte counter; needs such a number after a multi-byte character on its line", ["C19"]),
  "C20-r2-1": ("C20", "parser", "continue-must-be-last re-done as a scan in parseBlockStatement only; needs continue followed by statements directly in a case body", ["C20"]),
  "C20-r2-2": ("C20", "emitter", "chunk-label set filled while rendering; needs a user label equal to the label of a chunk rendered later", ["C20"]),
+ "C01-r3-1": ("C01", "emitter", "while header jumps to chunkCounter+1 instead of the condition's entry chunk; needs a while with a compound condition", ["C01", "C02"]),
+ "C01-r3-2": ("C01", "emitter", "explicit != on flag()/defeated() parsed as ==; needs a leaf flag(X) != true|false", ["C01", "C02"]),
+ "C02-r3-1": ("C02", "emitter", "a true middle elif is skipped (firstID argument); needs >= 2 elifs, the if false and a non-last elif true", ["C02", "C01"]),
+ "C02-r3-2": ("C02", "emitter", "an elif with an empty block is dropped with its condition; needs an empty elif followed by another branch", ["C02", "C01"]),
+ "C03-r3-1": ("C03", "emitter", "do-while leaves itself on the break stack; needs a do-while inside a case body and a later break of the switch", ["C03", "C01"]),
+ "C03-r3-2": ("C03", "emitter", "a bare return after a branching statement is folded away; needs switch + return as the end of a nested block", ["C03", "C01"]),
+ "C04-r3-1": ("C04", "emitter", "empty inline map scripts are not emitted but still referenced; needs an inline map script with an empty (or poryswitch-emptied) body", ["C04"]),
+ "C04-r3-2": ("C04", "emitter", "labels trailing a final end/return are cut off; needs end/return followed only by labels up to the block end", ["C04"]),
+ "C05-r3-1": ("C05", "emitter", "optimizer marks picked chunks instead of deleting them: a chunk laid out twice, another dropped; needs a continuation not reached by fall-through and a later plain return to it", ["C05"]),
+ "C05-r3-2": ("C05", "emitter", "optimizer elides empty chunks that are still jump targets; needs an empty if/while body or trailing empty cases after a default, with code after", ["C05"]),
+ "C06-r3-1": ("C06", "emitter", "inline data of an AutoVar switch operand merged after the case bodies; needs inline text in the operand and in a case body", ["C06"]),
+ "C06-r3-2": ("C06", "emitter", "movement clash check skips global-scope movements; needs movement(global) named like a produced hoisted movement", ["C06", "C20"]),
+ "C07-r3-1": ("C07", "emitter", "an explicit \\l jumps the line counter to numLines-1; needs numLines >= 3, an early explicit \\l and a later automatic break", ["C07"]),
+ "C07-r3-2": ("C07", "parser", "a width of 0 in the font table is treated as missing; needs a font with a default width and a glyph / code listed with width 0", ["C07"]),
+ "C08-r3-1": ("C08", "emitter", "':' labels of map-script entries run through the constant table; needs a const named like such a label", ["C08", "C13"]),
+ "C08-r3-2": ("C08", "emitter", "the emit error of an inline map script is swallowed; needs an inline script whose label clashes with a text label", ["C20"]),
+ "C09-r3-1": ("C09", "emitter", "inline text of the last && operand before ')' is lost; needs an AutoVar command with inline text in that position", ["C09", "C11", "C06"]),
+ "C09-r3-2": ("C09", "emitter", "emitText iterates with bufio.Scanner; needs a custom-typed text that is empty or ends in an empty line", ["C09"]),
+ "C10-r3-1": ("C10", "emitter", "scoped-label detection drops the trailing ':' check; needs a command whose whole argument list is the keyword local/global", ["C10"]),
+ "C10-r3-2": ("C10", "emitter", "empty-case chunk reuses the id of the last case-body chunk; needs default body + trailing body-less case", ["C03", "C01"]),
+ "C11-r3-1": ("C11", "emitter", "a colon-form poryswitch case keeps only the last parsed statement: the command of an AutoVar switch is dropped", ["C11", "C12"]),
+ "C11-r3-2": ("C11", "emitter", "'!' directly on an AutoVar leaf loses its comparison operator", ["C11"]),
+ "C12-r3-1": ("C12", "emitter", "an empty selected list case counts as no match (nil slice + nil test); needs 'KEY {}' selected with a non-empty '_' or none", ["C12", "C14"]),
+ "C12-r3-2": ("C12", "emitter", "inline data of a nested statement poryswitch merged after its later siblings; needs nested poryswitch with inline data followed by a sibling with inline data", ["C12"]),
+ "C13-r3-1": ("C13", "emitter", "a constant directly followed by '(' in a command argument is left unexpanded", ["C13"]),
+ "C13-r3-2": ("C13", "emitter", "duplicate-case set keyed by the raw spelling; needs two cases equal only after expansion (written-out twin is rejected)", ["C13", "C20"]),
+ "C14-r3-1": ("C14", "emitter", "same root cause as C12-r3-1 found independently (len(listItems) == 0 treated as missing case)", ["C14", "C12"]),
+ "C14-r3-2": ("C14", "emitter", "movement multiplier parsed base 10; needs a hex multiplier", ["C14"]),
+ "C15-r3-1": ("C15", "emitter", "explicit texts named like hoisted labels are never exported; needs text Foo_Text_7 without a clash", ["C15"]),
+ "C15-r3-2": ("C15", "emitter", "label statements interned by name: a repeated label takes the scope of its first occurrence; needs the same label in several poryswitch cases with different modifiers", ["C15"]),
+ "C16-r3-1": ("C16", "emitter", "input path spliced into the format string; needs a % in the path", ["C16"]),
+ "C16-r3-2": ("C16", "emitter", "line counter advances after a lone CR; needs a carriage return outside a CRLF pair", ["C16", "C19"]),
+ "C17-r3-1": ("C17", "parser", "duplicate-text-label error picked by map iteration; needs >= 2 different duplicated labels", ["C17"]),
+ "C17-r3-2": ("C17", "emitter", "chunk-label set lives on the Emitter and accumulates; needs a label spelled like a sub-label of an earlier script, or two emits on one Emitter", ["C17"]),
+ "C18-r3-1": ("C18", "emitter", "readNumber ASCII-only while NextToken dispatches on unicode.IsDigit: endless empty INT tokens; needs a non-ASCII digit inside a token-collecting construct", ["C18"]),
+ "C18-r3-2": ("C18", "emitter", "empty value() panics (parts[0])", ["C18"]),
+ "C19-r3-1": ("C19", "parser", "character column counts UTF-16 units; needs an astral character before a later token on its line", ["C19"]),
+ "C19-r3-2": ("C19", "emitter", "a multi-part string only continues across a line break; needs a gap between parts that starts with a space or tab", ["C19"]),
+ "C20-r3-1": ("C20", "parser", "redefinition check through the substitution helper; needs const FOO = FOO before the redefinition", ["C20"]),
+ "C20-r3-2": ("C20", "parser", "break scope pushed per case body, never popped for default; needs a switch with default earlier and a stray break later", ["C20"]),
 }
 only = sys.argv[1:]
 rows = []
